@@ -20,7 +20,7 @@ ASSUMPTIONS = ["reference feasibility checker in sim/model.py is correct", "inst
 def generate(seed, tier):
     rng = stream(seed, "c01")
     big = tier == "thorough" and rng.random() < 0.15
-    spec = gen_instance(rng, huge=0.03, max_jobs=6 if big else 4, max_machines=5 if big else 4, max_ops=6 if big else 4)
+    spec = gen_instance(rng, huge=0.03, sparse_ids=0.03, large=0.008, max_jobs=6 if big else 4, max_machines=5 if big else 4, max_ops=6 if big else 4)
     names, style = gen_filter(rng, None)
     faulty = rng.random() < 0.6
     ops = gen_dispatch_ops(
